@@ -20,6 +20,7 @@ var baseControl = []fieldKV{
 	{"Installed-Size", "10"}, {"Multi-Arch", "foreign"}, {"Depends", "b (>= 1), c | d"}, {"Recommends", "e"}, {"Suggests", "f"},
 	{"Breaks", "g (<< 2)"}, {"Replaces", "g"}, {"Built-Using", "h (= 1)"}, {"Section", "misc"}, {"Priority", "optional"},
 	{"Homepage", "http://example.org"}, {"Description", "short\n long line\n .\n more"},
+	{"Pre-Depends", "p"}, {"Conflicts", "q"}, {"Provides", "v"}, {"Enhances", "w"},
 }
 
 func renderControl(fs []fieldKV) string {
@@ -37,14 +38,21 @@ func nearMiss() map[string][]string {
 	dep := []string{"", "a (", "a [", "a <", "${", "a (>= 1", "a | ", "|", ",", "a b", "a (?? 1)", "a (>= )", "a [!]", "a <!>", "a:", "a (= 1) (= 2)", "${x} (>= 1)", "a [amd64 ", ")", "a, , b"}
 	num := []string{"", "-1", "x", "1 2", "12345678901234567890123456", "1.5", "٣", "+1", "0x10", " 7"}
 	text := []string{"", " ", "\n x", "a\tb", "\x00"}
+	// hostile bytes in every typed field: NUL, DEL, 0x80..0xff, alone / after / inside a value and inside every bracket
+	hostile := []string{"\x00", "a\x00", "a\x00b", "\x00a", "a (>= 1\x00)", "a (\x00", "a [\x00]", "a <\x00>", "${\x00}", "a, \x00", "a | \x00", "a\x00, b", "1\x00", "1.0\x00-1",
+		"\x7f", "a\x7f", "\x80", "a\x80b", "\xff", "a (>= \xff)", "a [\xff]", "\xff\xfe\xfd", "a\xc3", "999999999999999999999999999999", "a (= 999999999999999999999999999999)"}
+	version, arch, dep, num, text = append(version, hostile...), append(arch, hostile...), append(dep, hostile...), append(num, hostile...), append(text, hostile...)
 	add := func(vals []string, extra []string) []string { return append(append([]string{}, vals...), extra...) }
 	aud := gen.AuditStrings(gen.OneLine, 6) // alphabet audit: literals a change introduced, in every typed field
 	m := map[string][]string{
 		"Version": add(version, aud), "Architecture": add(arch, aud), "Installed-Size": add(num, gen.AuditIntStrings(0, 1<<62, 6)),
 		"Package": text, "Multi-Arch": text, "Description": text,
 	}
-	for _, f := range []string{"Depends", "Recommends", "Suggests", "Breaks", "Replaces", "Built-Using"} {
+	for _, f := range []string{"Depends", "Recommends", "Suggests", "Breaks", "Replaces", "Built-Using", "Pre-Depends", "Conflicts", "Provides", "Enhances"} {
 		m[f] = add(dep, aud)
+	}
+	for _, f := range []string{"Source", "Maintainer", "Section", "Priority", "Homepage"} {
+		m[f] = text
 	}
 	return m
 }
@@ -126,7 +134,7 @@ func clearsignShapes() []contentIn {
 
 // ---- truncated tails of typed field values ----
 
-var editSymbols = []string{"(", ")", "[", "]", "<", ">", "!", "$", "{", "}", ",", "|", " ", "a"}
+var editSymbols = []string{"(", ")", "[", "]", "<", ">", "!", "$", "{", "}", ",", "|", " ", "a", "\x00", "\x7f", "\x80", "\xff"}
 
 func tails(rich string) []string {
 	var out []string
@@ -134,6 +142,11 @@ func tails(rich string) []string {
 		out = append(out, rich[:c])
 		for _, e := range editSymbols {
 			out = append(out, rich[:c]+e)
+		}
+		for _, e := range []string{"\x00", "\xff"} { // a hostile byte INSIDE the value: the rest follows
+			if c < len(rich) {
+				out = append(out, rich[:c]+e+rich[c:])
+			}
 		}
 	}
 	return out
@@ -604,6 +617,92 @@ func (x *runner) doubleDefectScenario(r *mc.Run) {
 			for i := shard * chunk; i < (shard+1)*chunk && i < len(ins); i++ {
 				st.Transitions++
 				if !x.one("double-defects", st, lim, gen.ArmBuild(ins[i].ms), "load+text", ins[i].desc) {
+					return false
+				}
+			}
+			return !r.Expired()
+		})
+}
+
+// ---- several spellings of one field name, differing only in case ----
+
+func (x *runner) fieldCaseScenario(r *mc.Run) {
+	type cf struct {
+		name string
+		vals [3]string
+	}
+	fields := []cf{
+		{"Package", [3]string{"a", "b", "c"}}, {"Version", [3]string{"1.0", "2.0", "3.0"}}, {"Architecture", [3]string{"all", "amd64", "i386"}},
+		{"Maintainer", [3]string{"A <a@x>", "B <b@x>", "C <c@x>"}}, {"Installed-Size", [3]string{"1", "2", "3"}}, {"Multi-Arch", [3]string{"foreign", "same", "allowed"}},
+		{"Depends", [3]string{"x", "y", "z"}}, {"Built-Using", [3]string{"x (= 1)", "y (= 2)", "z (= 3)"}}, {"Description", [3]string{"one", "two", "three"}},
+	}
+	spell := func(n string, k int) string {
+		switch k {
+		case 0:
+			return strings.ToLower(n)
+		case 1:
+			return strings.ToUpper(n)
+		case 2: // odd mix
+			b := []byte(strings.ToLower(n))
+			for i := 1; i < len(b); i += 2 {
+				if b[i] >= 'a' && b[i] <= 'z' {
+					b[i] -= 32
+				}
+			}
+			return string(b)
+		}
+		return n // 3: the exact spelling
+	}
+	type ci struct{ desc, control string }
+	var ins []ci
+	for _, f := range fields {
+		rest := func() []fieldKV {
+			var out []fieldKV
+			for _, b := range baseControl {
+				if b.k != f.name {
+					out = append(out, b)
+				}
+			}
+			return out
+		}
+		// every ordered selection of 2 and 3 spellings out of {lower, UPPER, mixed, exact}, each with its own value
+		var sel func(cur []int)
+		sel = func(cur []int) {
+			if len(cur) >= 2 {
+				fs := rest()
+				var d []string
+				for i, k := range cur {
+					fs = append(fs, fieldKV{spell(f.name, k), f.vals[i]})
+					d = append(d, spell(f.name, k)+"="+f.vals[i])
+				}
+				ins = append(ins, ci{"control " + strings.Join(d, ", "), renderControl(fs)})
+				// the variants in front of the other fields as well
+				fs2 := append([]fieldKV{}, fs[len(fs)-len(cur):]...)
+				ins = append(ins, ci{"control (first lines) " + strings.Join(d, ", "), renderControl(append(fs2, rest()...))})
+			}
+			if len(cur) == 3 {
+				return
+			}
+			for k := 0; k < 4; k++ {
+				used := false
+				for _, c := range cur {
+					used = used || c == k
+				}
+				if !used {
+					sel(append(append([]int{}, cur...), k))
+				}
+			}
+		}
+		sel(nil)
+	}
+	const chunk = 16
+	r.Scenario("field-name-case", map[string]interface{}{"inputs": len(ins), "fields": len(fields), "spellings": "lower, UPPER, mIxEd, exact: every ordered selection of 2 or 3, each spelling with its own value; at the end and at the start of the paragraph",
+		"compared": "result class, every typed field of the decoded paragraph and the error text, between a load with sorted and a load with reversed map orders (" + MapOrderNote + ")"},
+		(len(ins)+chunk-1)/chunk, func(shard int, st *mc.Stats) bool {
+			lim := limiter{}
+			for i := shard * chunk; i < (shard+1)*chunk && i < len(ins); i++ {
+				st.Transitions++
+				if !x.one("field-name-case", st, lim, gen.ArmBuild(debWith(ins[i].control, false)), "load+text", ins[i].desc) {
 					return false
 				}
 			}
